@@ -112,6 +112,15 @@ func (a *AuthorRequest) Validate() error {
 			return err
 		}
 	}
+	// one octet lengths, one octet argument count
+	for _, f := range []struct {
+		name string
+		n    int
+	}{{"user", a.User.Len()}, {"port", a.Port.Len()}, {"rem_addr", a.RemAddr.Len()}, {"arg_cnt", len(a.Args)}} {
+		if err := checkLen(f.name, f.n, 0xff); err != nil {
+			return err
+		}
+	}
 	return nil
 }
 
@@ -290,6 +299,16 @@ func (a *AuthorReply) Validate() error {
 		if err := t.Validate(nil); err != nil {
 			return err
 		}
+	}
+	// two octet lengths for the text fields, one octet argument count
+	if err := checkLen("server_msg", a.ServerMsg.Len(), 0xffff); err != nil {
+		return err
+	}
+	if err := checkLen("data", a.Data.Len(), 0xffff); err != nil {
+		return err
+	}
+	if err := checkLen("arg_cnt", len(a.Args), 0xff); err != nil {
+		return err
 	}
 	return nil
 }
